@@ -26,7 +26,8 @@ RULE = ("generated package trees (1..3 levels, 1..3 sub-packages, classes re-exp
         "absent / inside / outside the package x --emit-sqlalchemy-submodule; a case = one exmod invocation; distinct by "
         "content digest; non-trivial = all (every case checks the snapshot)")
 REQUIRED_MONITORS = ("exmod.run", "dry-run.snapshot.compared", "dry-run.audit.checked", "real-run.confined",
-                     "generated.python.checked", "exclusion.checked", "exmod.succeeded.real", "exmod.succeeded.dry")
+                     "generated.python.checked", "exclusion.checked", "exmod.succeeded.real", "exmod.succeeded.dry",
+                     "exclusion.siblings.checked")
 ASSUMPTIONS = ["the audit log also catches an open(...,'a').close() that leaves no trace in a snapshot",
                "configurations that raise (e.g. --emit sqlalchemy on this tree: TypeError unexpected keyword) are "
                "'rejected' but remain subject to the dry-run / confinement clauses for whatever they did before failing",
@@ -88,6 +89,10 @@ def run_case(ctx, P, stream, idx):
         emit = r.choice(EMITS)
         dry = r.random() < 0.5
         recursive = r.random() < 0.5
+        # every 12th case is the sibling scenario: the whole package, recursively, for real, several --blacklist flags
+        sib_case = idx % 12 == 5 and len(desc["subpackages"]) >= 2
+        if sib_case:
+            module, dry, recursive = pkg, False, True
         sa_sub = emit.startswith("sqlalchemy") and r.random() < 0.6
         where = r.choice(("outside", "outside", "inside", "nested-absent", "named-gold", "named-module", "named-module"))
         # the target module name defaults to `gold`; a directory named after it - or after the exposed module, the
@@ -104,6 +109,10 @@ def run_case(ctx, P, stream, idx):
                 with open(os.path.join(out, "keep.txt"), "w") as f:
                     f.write("keep")
         excl = r.choice(("none", "none", "blacklist-self", "whitelist-other", "blacklist-deep", "whitelist-self"))
+        siblings = [sp.rpartition(".")[2] for sp in desc["subpackages"]]
+        if sib_case:
+            excl = "blacklist-siblings"
+        black_sibs = r.sample(siblings, r.randint(2, len(siblings))) if excl == "blacklist-siblings" else []
         argv = [vpy, os.path.join(VERIF_ROOT, "vcdd", "monitors", "auditwrap.py"), log, "cdd", "exmod", "-m", module, "--emit",
                 emit, "-o", out]
         if dry:
@@ -122,11 +131,15 @@ def run_case(ctx, P, stream, idx):
             argv += ["--whitelist", module]
         elif excl == "blacklist-deep":
             argv += ["--blacklist", "deep"]
+        elif excl == "blacklist-siblings":
+            for sb in black_sibs:  # one flag per entry, as documented ([--blacklist BLACKLIST])
+                argv += ["--blacklist", sb]
         cfg = {"module": module.replace(pkg, "PKG"), "emit": emit, "dry_run": dry, "recursive": recursive,
                "sqlalchemy_submodule": sa_sub, "output": where, "output_pre_exists": pre_exists, "exclusion": excl, "target_module_name": target}
         src_snap = fsnap.snapshot(os.path.join(purelib, pkg))
         snap0 = fsnap.snapshot(root)
-        env = dict(os.environ, PYTHONPATH=REPO, PYTHONDONTWRITEBYTECODE="1")
+        # (the command runs under its own string-hash seed, as a user's invocation does; the harness under 0)
+        env = dict(os.environ, PYTHONPATH=REPO, PYTHONDONTWRITEBYTECODE="1", PYTHONHASHSEED=str(1 + (idx * 31) % 9973))
         pr = subprocess.run(argv, cwd=case_dir, env=env, stdout=subprocess.PIPE, stderr=subprocess.PIPE, timeout=600)
         P.monitor("exmod.run")
         snap1 = fsnap.snapshot(root)
@@ -226,6 +239,15 @@ def run_case(ctx, P, stream, idx):
                           and "/sqlalchemy_mod/" not in p]  # scaffolding requested by --emit-sqlalchemy-submodule
             if excl in ("blacklist-self", "whitelist-other") and module != pkg and not recursive and emitted_py:
                 dev("excluded-module-emitted", "module excluded by %s still produced %r" % (excl, emitted_py[:5]))
+            if excl == "blacklist-siblings" and recursive:
+                P.monitor("exclusion.siblings.checked")
+                # (a name excludes that package, not the packages nested in it: `beta` leaves `beta.deep` in, as
+                # setuptools' find_packages(exclude=...) which implements the option does)
+                rel = [(p, os.path.relpath(os.path.join(root, p), out).split(os.sep)) for p in emitted_py]
+                hit = [p for p, parts in rel if parts[0] in black_sibs and not (len(parts) > 2 and parts[1] == "deep")]
+                if hit:
+                    dev("excluded-sibling-emitted", "sub-packages excluded by --blacklist %s produced %r" % (
+                        " --blacklist ".join(black_sibs), hit[:5]))
             if excl == "blacklist-deep" and recursive:
                 deep = [p for p in emitted_py if os.path.relpath(os.path.join(root, p), out).split(os.sep)[0] == "deep"]
                 if deep:
